@@ -62,10 +62,18 @@ def run(ctx):
               what="three keys XOR to zero", found=[(a, [ks[k][0] for k in pair[v]]) for a, v in dep3[:3]])
     ctx.check("C05.D2", "no-4-key-dependency", not dep4, file="src/chess/zobrist.rs",
               what="four keys XOR to zero (two different two-feature changes give the same hash)", found=dep4[:3])
+    # table shapes: one state key per byte value, one piece key per (square, piece)
+    st = F.const_ints("chess::zobrist::STATE", 8)
+    pc = F.const_ints("chess::zobrist::PIECE", 8)
+    shape_ok = len(st) == 256 and len(pc) == 768 and F.const("chess::zobrist::PIECE")["ty"] == "[[u64; 12]; 64]"
+    ctx.check("C05.D3", "key-table-shapes", shape_ok, file="src/chess/zobrist.rs",
+              what="the key tables no longer have one state key per state byte (256) and one piece key per square x piece (64 x 12): "
+                   "distinct feature values must share keys", expected={"STATE": 256, "PIECE": "64 x 12"},
+              found={"STATE": len(st), "PIECE": F.const("chess::zobrist::PIECE")["ty"]})
+    if not shape_ok:
+        return
     # D5: no one-ply change cancels: P[a][s]^P[a][e]^SIDE in {STATE[i]^STATE[j]} (incl. i=j -> 0)
     side = vals[0]
-    st = vals[2:258]
-    pc = vals[258:]
     state_pairs = {0}
     for i in range(256):
         for j in range(i + 1, 256):
